@@ -41,7 +41,7 @@ def validate(traces, dev, name="lextrace", timeout=1800, chunks=16):
     jobs = []
     os.makedirs(os.path.join(BUILD, "traces"), exist_ok=True)
     for j, part in enumerate(parts):
-        path = os.path.join(BUILD, "traces", f"{name}-{j}.json")
+        path = os.path.join(BUILD, "traces", f"{name}-{os.getpid()}-{j}.json")
         with open(path, "w") as f:
             json.dump(part, f)
         cfg = tlc.cfg_text(spec="TSpec", constants=["Alpha <- cAlpha", "MaxLen = 0", "Dev <- cDev",
